@@ -26,10 +26,17 @@ type c08Scenario struct {
 	NT    int     `json:"n_targets"`
 	Cmds  []tlCmd `json:"cmds"`
 	Reqs  []tlReq `json:"reqs"`
+	// Prefix: the service is deployed below this path prefix (with or without prefix stripping) and
+	// every request path is spelled below it: "<prefix>/up" is then not the health-check path.
+	Prefix string `json:"path_prefix"`
+	Strip  bool   `json:"strip_prefix"`
 }
 
 func c08Gen(rng *rand.Rand, idx int) c08Scenario {
 	sc := c08Scenario{Idx: idx, Pages: pick(rng, []string{"", "pages", "pages502", "pages503"}), NT: 1 + rng.IntN(2)}
+	if idx%4 == 1 || idx%4 == 3 {
+		sc.Prefix, sc.Strip = "/api", idx%4 == 1
+	}
 	kinds := []string{"stop", "stop", "stop", "pause", "resume", "resume", "deploy", "rollout-deploy", "rollout-set", "rollout-stop"}
 	n := 3 + rng.IntN(8)
 	sc.Cmds = tlGenCmds(rng, n, kinds, c08Msgs)
@@ -312,6 +319,11 @@ func c08Run(t *testing.T, run *Run, sc c08Scenario) {
 	if sc.Pages != "" {
 		so.ErrorPagePath = Fixtures() + "/" + sc.Pages
 	}
+	hcPath := "/up"
+	if sc.Prefix != "" {
+		so.PathPrefixes, so.StripPrefix = []string{sc.Prefix}, sc.Strip
+		hcPath = "\x00no request path is the health-check path"
+	}
 	mk := func(tag string, g int) []string {
 		var out []string
 		for i := 0; i < sc.NT; i++ {
@@ -364,7 +376,7 @@ func c08Run(t *testing.T, run *Run, sc c08Scenario) {
 		})
 	}
 	for _, r := range sc.Reqs {
-		req := Req{ID: r.ID, Method: r.Method, Host: "c08.example", Path: r.Path, Body: tlBody(r.ID, r.Body), Lat: r.Lat}
+		req := Req{ID: r.ID, Method: r.Method, Host: "c08.example", Path: sc.Prefix + r.Path, Body: tlBody(r.ID, r.Body), Lat: r.Lat}
 		if r.D2 > 0 {
 			// the request lingers either right after the gate or right before its claim (whatever the
 			// code does in between - nothing of duration - is then on the far side of the delay)
@@ -405,11 +417,11 @@ func c08Run(t *testing.T, run *Run, sc c08Scenario) {
 	for _, r := range sc.Reqs {
 		got := resps[r.ID]
 		st := tlStateAt(sc.Cmds, r.At, false)
-		cands, tie := tlExpect(sc.Cmds, r, "/up")
+		cands, tie := tlExpect(sc.Cmds, r, hcPath)
 		if r.D2 > 0 {
 			later := r
 			later.At = r.At + r.D2 + Step
-			c2, tie2 := tlExpect(sc.Cmds, later, "/up")
+			c2, tie2 := tlExpect(sc.Cmds, later, hcPath)
 			cands, tie = append(cands, c2...), tie || tie2
 			run.Count("placed_checked", 1)
 		}
